@@ -34,6 +34,7 @@ func raceFilter(id, path string) int {
 			if len(fns) == 2 {
 				break
 			}
+			p = strings.TrimLeft(p, "\r\n") // the first paragraph follows the WARNING line directly
 			first := ""
 			for _, line := range strings.Split(p, "\n") {
 				if m := frameRe.FindStringSubmatch(line); m != nil && strings.Contains(m[1], "github.com/DrmagicE/gmqtt") {
